@@ -9,6 +9,7 @@ ASSUME = [
     '"all nodes deliver the same sequence" is checked as: the stream served after a fault extends the stream served before it (the node before and after the crash are two servers of the same log)',
     'fresh-network tier (TestVerifC05Fresh): a brand-new network without any history: all sequences of the same depth over {POST /session, POST /config, snapshot, snapshot+graceful restart as one step, SIGKILL+restart, graceful restart}, in the quick tier in both encodings (protobuf and legacy JSON); every acknowledged session must still exist and the acknowledged config revision must be in force after every operation, and the newest session posts at the end (short histories: the snapshot sees zero, one or two entries)',
     'network tier (TestVerifC05Net, harness/localnet): three REAL robustirc binaries started by the repository\'s own launcher (internal/localnet: TLS listeners, rafthttp transport, main()\'s bootstrap and join code, real timers) on loopback; all sequences of depth 2 (quick) / 3 (thorough) over {post, retry, SIGKILL leader, SIGKILL leader and post at once (the followers still proxy to the dead leader), SIGKILL a follower, restart the dead nodes, forced snapshot on every node, SIGKILL all + restart all}, each framed by a post before and after; after every operation EVERY live node serves the reader\'s complete stream up to a marker: acknowledged messages exactly once in post order, the same sequence on all nodes, each node\'s stream extends what it served before',
+    'network tier, quorum loss (TestVerifC05NetQuorum): both followers are killed, a POST and -- while it is pending -- its retry are sent to the leader that cannot commit, the leader is killed, the followers return, elect a leader and commit, the old leader returns and its uncommitted entry is overwritten: whatever was answered with success must be served by every node afterwards, nothing twice',
     'limit of the network tier: fault SEQUENCES are enumerated exhaustively, the timing inside an operation (which instant of an election or replication a kill hits) is whatever the run produces, not enumerated; at most one node is dead at a time (except crash-all); raft consensus itself is trusted; a wait that exceeds its bound (60-90 s) makes the run inconclusive (exhaustive:false, exit 0), never a violation',
 ]
 RULE = ('single-node tier: all sequences of the given depth over {postA, postB, retryA, snapshot, snapshot with a JOIN/PART of A posted between FSM.Snapshot and Persist (Persist is held back by a wrapper around the FSM handed to raft), SIGKILL+restart, graceful restart, post-then-SIGKILL}; after every operation both sessions read their whole stream through the real GET handler: '
@@ -42,6 +43,7 @@ def run(tier):
     env = {'VERIF_TIER': tier, 'PATH': bindir + os.pathsep + os.environ.get('PATH', ''), 'VERIF_DEADLINE': str(int(t0 + budget * 0.6)), 'GOMAXPROCS': '2'}
     try:
         rn = vlib.run_workers(tb, 'TestVerifC05Net', 24, env=env)
+        rn += vlib.run_workers(tb, 'TestVerifC05NetQuorum', 1, env=env)
     finally:
         # the servers run in their own process groups: make sure none outlives a worker that died
         import subprocess
